@@ -12,6 +12,7 @@ Lemma quiet_trans a b c : quiet_ctl a b -> quiet_ctl b c -> quiet_ctl a c.
 Proof. intros [H1 H2] [H3 H4]. split; [congruence|]. intros H. rewrite H4 by congruence. auto. Qed.
 Lemma quiet_budget n x c : quiet_ctl c (set_budget n x c). Proof. split; reflexivity. Qed.
 Lemma quiet_incstack l c : quiet_ctl c (set_incstack l c). Proof. split; reflexivity. Qed.
+Lemma quiet_cdepth d c : quiet_ctl c (set_cdepth d c). Proof. split; reflexivity. Qed.
 
 Lemma shell_filter_quiet cmd text c s : quiet_ctl c (fst (snd (shell_filter cmd text (c, s)))).
 Proof.
@@ -96,15 +97,16 @@ Qed.
 Lemma user_macro_quiet pb m n l c s : quiet_pb pb -> quiet_ctl c (fst (user_macro pb m n l (c, s))).
 Proof.
   intros Hpb. unfold user_macro.
-  destruct (Nat.ltb 42 (cdepth s)); [apply quiet_refl|].
+  destruct (Nat.ltb 42 (cdepth c)); [apply quiet_refl|].
   destruct (Nat.leb max_macro_expansions (xcount c)); [apply quiet_budget|].
   destruct (Nat.ltb max_macro_args_size _); [apply quiet_budget|].
   destruct (parse_opts (um_opts m) _ _) as [o sa].
   destruct (if Nat.ltb 0 (um_argsc m) || um_list m || _ then _ else _) as [blocks sd].
   match goal with |- context [pb blocks (?c0, ?s0)] => pose proof (Hpb blocks c0 s0) as H; destruct (pb blocks (c0, s0)) as [cf sf] end.
   cbn [fst] in H.
-  destruct (Nat.eqb _ 0); cbn [fst];
-    (eapply quiet_trans; [apply quiet_budget|]); (eapply quiet_trans; [exact H|]); [apply quiet_budget | apply quiet_refl].
+  assert (Hg : quiet_ctl c (set_cdepth (Nat.pred (cdepth cf)) cf)).
+  { eapply quiet_trans; [apply quiet_budget|]. eapply quiet_trans; [apply quiet_cdepth|]. eapply quiet_trans; [exact H|]. apply quiet_cdepth. }
+  dif; cbn [fst]; [eapply quiet_trans; [exact Hg| apply quiet_budget] | exact Hg].
 Qed.
 
 Lemma step_quiet pb b c s : quiet_pb pb -> quiet_ctl c (fst (step pb b (c, s))).
